@@ -78,10 +78,6 @@ def main():
             own = bool(new.get(pid))
             results[name] = {"property": pid, "caught_by_own_check": own, "caught_by": sorted(new), "new_violations": new}
             print("%-8s own=%-5s caught_by=%s" % (name, own, ",".join(sorted(new)) or "-"))
-            try:
-                os.remove(fpath)
-            except OSError:
-                pass
         finally:
             shutil.rmtree(w, ignore_errors=True)
     out = os.path.join(V, "seeded", "RESULTS.json")
